@@ -27,7 +27,7 @@ for cap, cap2, tier in ((1, 1, 'quick'), (2, 3, 'quick'), (4, 3, 'quick'), (5, 5
         for entry in ('proof_da_init', 'proof_da_emplace_copy', 'proof_da_emplace_args', 'proof_da_bulk', 'proof_da_copy_clear', 'proof_da_iter', 'proof_sa'):
             if entry == 'proof_sa' and pl: continue
             job(id='C19.array.cap%d_%d%s.%s' % (cap, cap2, '.int' if pl else '', entry[6:]), tu='tier_a/arrays.cpp', defs=defs, entry=entry,
-                props=['C19', 'C11'], tier=t, unwind=max(cap, cap2, 4) + 2, objbits=10, carriers=DA_CARRIERS,
+                props=['C19', 'C11'] + (['C14'] if pl and entry == 'proof_da_copy_clear' else []), tier=t, unwind=max(cap, cap2, 4) + 2, objbits=10, carriers=DA_CARRIERS,
                 case_key='DynamicArrayT<TransitionT<%s>,%d>+=<%d>' % ('int' if pl else 'void', cap, cap2))
 
 # ------------------------------------------------------------------ C20 generators
@@ -138,20 +138,26 @@ M_RES = Machine('resumable', 'tier_c/m_resumable.cpp', [-1, 0, 0, 2, 2, 0], ['C'
 M_ORTHO = Machine('ortho', 'tier_c/m_ortho.cpp', [-1, 0, 1, 2, 2, 1, 5, 5, 0], ['C', 'O', 'C', 'L', 'L', 'C', 'L', 'L', 'L'], unwind=14); M_ORTHO.root_stub = True
 M_NEST = Machine('nested', 'tier_c/m_nested.cpp', [-1, 0, 1, 2, 2, 1, 0], ['C', 'C', 'C', 'L', 'L', 'L', 'L'], unwind=14)
 M_SEL = Machine('select', 'tier_c/m_select.cpp', [-1, 0, 0, 2, 2, 4, 4], ['C', 'L', 'C', 'L', 'C', 'L', 'L'], unwind=14)
-MACHINES = [M_RES, M_ORTHO, M_NEST, M_SEL]
+M_OROOT = Machine('oroot', 'tier_c/m_oroot.cpp', [-1, 0, 1, 1, 0, 4, 4], ['O', 'C', 'L', 'L', 'C', 'L', 'L'], unwind=14); M_OROOT.root_stub = True
+MACHINES = [M_RES, M_ORTHO, M_NEST, M_SEL, M_OROOT]
 KIND_NAMES = {0: 'change', 1: 'restart', 2: 'resume', 3: 'select', 4: 'utilize', 5: 'randomize', 6: 'schedule'}
 STEP_CARRIERS = [r'R_<.*>::processTransitions', r'R_<.*>::applyRequest', r'RegistryT<.*>::requestImmediate', r'C_<.*>::deepChangeToRequested', r'C_<.*>::deepForwardActive',
                  r'S_<.*>::deepEnter', r'S_<.*>::deepExit', r'C_<.*>::deepEnter', r'C_<.*>::deepExit', r'R_<.*>::approvedByGuards']
 def ortho_direct(m, d):
     """delimiting predicate of finding KF-C02-ortho-sibling-reset: the destination is a direct sub-state of an orthogonal region"""
-    return ['ortho-direct'] if m.parents[d] >= 0 and m.kinds[m.parents[d]] == 'O' else []
+    if m.parents[d] < 0 or m.kinds[m.parents[d]] != 'O': return []
+    a = m.parents[d]; has_compo_above = False
+    while a >= 0:
+        if m.kinds[a] == 'C': has_compo_above = True
+        a = m.parents[a]
+    return ['ortho-direct'] + ([] if has_compo_above else ['ortho-root-direct'])    # second tag: finding KF-C02-ortho-root-child-ignored
 def machine_jobs(m, kinds=(0, 1, 2), upd_kinds_quick=(0, 2, 6), upd_kinds=(0, 1, 2, 6), tier='quick', q2_tier='thorough'):
     base = dict(tu=m.tu, defs=m.defs, unwind=m.unwind, objbits=12, timeout=900)
     for e in ('proof_init', 'proof_exit_enter', 'proof_reset', 'proof_cfg_count'):
         job(id='C.%s.%s' % (m.name, e[6:]), entry=e, props=['C01', 'C02', 'C03', 'C13', 'C11'] if e != 'proof_cfg_count' else ['C01'], tier=tier,
             carriers=[r'R_<.*>::initialEnter', r'R_<.*>::finalExit'] if e == 'proof_init' else [], case_key='%s/%s' % (m.name, e[6:]), **base)
     for k in kinds:
-        for d in range(1, m.n):
+        for d in range(0, m.n):          # d == 0: the root itself (R_::applyRequest routes it through _apex.deepRequest(), not through the registry walk)
             job(id='C.%s.imm.%s.d%d' % (m.name, KIND_NAMES[k], d), entry='step_immediate', key=[k, d], props=['C01', 'C02', 'C03', 'C04', 'C13', 'C11'], tier=tier, carriers=STEP_CARRIERS, tags=ortho_direct(m, d),
                 case_key='%s/immediate/%s/dest=%d' % (m.name, KIND_NAMES[k], d), **base)
     ncfg = m.count(0)
@@ -228,6 +234,7 @@ extra_jobs(M_RES, q3=False); extra_jobs(M_NEST)        # M_RES has a queue capac
 machine_jobs(M_NEST, q2_tier='quick')
 machine_jobs(M_ORTHO, upd_kinds_quick=(0,))
 machine_jobs(M_SEL, kinds=(0, 1, 2, 3), upd_kinds_quick=(0, 3), upd_kinds=(0, 1, 2, 3, 6))
+machine_jobs(M_OROOT, upd_kinds_quick=(0,))
 
 # ------------------------------------------------------------------ C08 / C09 jobs on the sample machines
 def serial_jobs(m, tier='quick'):
@@ -254,6 +261,8 @@ def history_round_jobs(m, tier='quick'):
                     quick = c == 0 and d1 != d2 and d3 not in (d1, d2) and compatible(m, d1, d2) and m.kinds[d2] == 'L'
                     job(id='C.%s.history2.c%d.d%d.d%d.d%d' % (m.name, c, d1, d2, d3), entry='step_history_rounds', key=[c, d1, d2, d2, d3], props=['C09', 'C01'], quick_for=['C09'], tier=tier if quick else 'thorough',
                         carriers=[r'R_<.*>::replayTransitions', r'R_<.*>::applyRequests', r'R_<.*>::processTransitions'], case_key='%s/two approved rounds/cfg=%d/%d,%d then %d' % (m.name, c, d1, d2, d3), **base)
+                    job(id='C.%s.history2v.c%d.d%d.d%d.d%d' % (m.name, c, d1, d2, d3), entry='step_history_rounds', key=[c, d1, d2, d2, d3, 1], props=['C09', 'C04', 'C01'], quick_for=['C09', 'C04'], tier=tier if quick else 'thorough',
+                        carriers=[r'R_<.*>::replayTransitions', r'R_<.*>::processTransitions', r'RegistryT<.*>::restore'], case_key='%s/approved round then a round that may be vetoed/cfg=%d/%d,%d then %d' % (m.name, c, d1, d2, d3), **base)
 history_round_jobs(M_RES)
 serial_jobs(M_RES); serial_jobs(M_ORTHO); serial_jobs(M_NEST)
 history_jobs(M_RES); history_jobs(M_NEST); history_jobs(M_ORTHO, tier='thorough')
@@ -264,7 +273,7 @@ for variant, vdefs in (('user_rng', {}), ('builtin_rng', {'VD_BUILTIN_RNG': None
         for entry in ('proof_two_storages', 'proof_copy'):
             for sroa in (True, False):
                 defs = dict(vdefs); defs['VD_SCRIPT'] = script
-                job(id='C10.%s.s%d.%s%s' % (variant, script, entry[6:], '' if sroa else '.unpromoted'), tu='tier_c/m_determinism.cpp', defs=defs, entry=entry, props=['C10', 'C11'], unwind=34, objbits=12, timeout=900, sroa=sroa,
+                job(id='C10.%s.s%d.%s%s' % (variant, script, entry[6:], '' if sroa else '.unpromoted'), tu='tier_c/m_determinism.cpp', defs=defs, entry=entry, props=['C10', 'C11'], unwind=34, unwindset={entry + '.0': 98}, objbits=12, timeout=1800, sroa=sroa,
                     tier='quick' if (sroa and script < 2) else 'thorough', carriers=[r'InstanceT<.*>::InstanceT', r'CoreT<.*>::CoreT', r'R_<.*>::R_', r'RV_<.*>::RV_'],
                     case_key='determinism/%s/script %d/%s/%s' % (variant, script, entry[6:], 'sroa' if sroa else 'un-promoted IR'))
 
@@ -332,13 +341,17 @@ for mode, name in ((1, 'verbose'), (2, 'interface')):
         i = max(M_LOG.active_set(c))
         for d in range(1, M_LOG.n):
             job(id='C.%s.logupd.c%d.d%d' % (M_LOG.name, c, d), entry='step_logger_update', key=[c, i, 0, d], props=['C16'], tier='quick' if (mode == 1 and d in (1, 4)) else 'thorough',
-                carriers=[r'R_<.*>::update'], case_key='%s/logger during update/cfg=%d/dest=%d' % (name, c, d), **base)
+                carriers=[r'R_<.*>::update'], case_key='%s/logger during update/cfg=%d/dest=%d' % (name, c, d), **dict(base, unwindset={'_ZL23check_log_mirrors_tracev.0': 90}))
 
 M_UTILN = Machine('utiln', 'tier_c/m_util.cpp', [-1, 0, 0, 2, 3, 3, 2, 2, 7, 7, 9, 9], ['C', 'L', 'C', 'C', 'L', 'L', 'L', 'O', 'L', 'C', 'L', 'L'], defs={'VM_NESTED_UTIL': None}, unwind=26)
 for region, full, tier in ((2, 0, 'quick'), (3, 0, 'quick'), (9, 0, 'quick'), (2, 1, 'thorough')):
     job(id='C.utiln.utilize_nested.r%d%s' % (region, '.full' if full else ''), tu=M_UTILN.tu, defs=M_UTILN.defs, entry='step_utilize_nested', key=[region, full], props=['C12', 'C01', 'C02', 'C11'], unwind=26, objbits=12,
         timeout=1500, mem_gb=24, tier=tier, cbmc_flags=['--slice-formula'],
         carriers=[r'C_<.*>::deepReportUtilize', r'O_<.*>::deepReportUtilize', r'OS_<.*>::wideReportUtilize', r'C_<.*>::deepRequestUtilize'], case_key='nested utility/utilize region %d%s' % (region, ' incl. product/mean rule' if full else ''))
+
+M_UTILH = Machine('utilh', 'tier_c/m_util.cpp', [-1, 0, 0, 2, 3, 3, 2], ['C', 'L', 'C', 'C', 'L', 'L', 'L'], defs={'VM_HEADLESS_UTIL': None}, unwind=18)
+job(id='C.utilh.utilize_headless.r2', tu=M_UTILH.tu, defs=M_UTILH.defs, entry='step_utilize_nested', key=[2, 1], props=['C12', 'C01', 'C02', 'C11'], unwind=18, objbits=12, timeout=1500, mem_gb=24, cbmc_flags=['--slice-formula'],
+    carriers=[r'C_<.*>::deepReportUtilize', r'S_<.*EmptyT.*>::wrapUtility|S_<.*>::wrapUtility', r'C_<.*>::deepRequestUtilize'], case_key='headless nested utility/utilize region 2 (anonymous head counts as 1)')
 
 # ------------------------------------------------------------------ C11: request queue beyond capacity (known finding)
 for m in (M_RES, M_NEST):
@@ -391,6 +404,9 @@ QUICK_TABLE = [
     (r'^C\.resumable\.imm\.',            ['C01', 'C02', 'C03', 'C04', 'C13', 'C11']),
     (r'^C\.nested\.imm\.',               ['C01', 'C02', 'C03']),
     (r'^C\.select\.imm\.',               ['C01', 'C02']),
+    (r'^C\.oroot\.imm\.',              ['C01', 'C02', 'C03', 'C04']),
+    (r'^C\.oroot\.upd\.c\d+\.i\d+\.',  []),
+    (r'^C\.oroot\.(init|exit_enter|reset|cfg_count)$', ['C01', 'C02', 'C03']),
     (r'^C\.ortho\.imm\.(change|resume)', ['C01', 'C03', 'C13', 'C11']),
     (r'^C\.ortho\.imm\.',                ['C02']),
     (r'^C\.plan\.imm\.',                 []),
@@ -418,6 +434,7 @@ QUICK_TABLE = [
     (r'^C15\.',                          ['C15']),
     (r'^C19\.pool\.cap[24]\.',           None),
     (r'^C19\.pool\.',                    ['C19']),
+    (r'^C19\.array\.cap(2_3|4_3)\.int\.da_copy_clear', None),
     (r'^C19\.array\.cap(2_3|4_3)',       None),
     (r'^C19\.array\.',                   ['C19']),
     (r'^C18\.bitarray\.n(9|17)\.',       None),
